@@ -570,9 +570,31 @@ def pat_scalars(rng, s):
     return [mk_homothety(rng, s), gen_endo(rng, s, 0), mk_homothety(rng, s)]
 
 
+def pat_block_rule_identities(rng, s):
+    """two block-diagonal operators whose block-wise products become identities only THROUGH A RULE (a relabelling
+    followed by its transpose), never through the eager shortcuts of `@`: the merged block diagonal of identities
+    must itself disappear"""
+    subs = sub_structures(s)
+    if subs is None:
+        return None
+    firsts, seconds = [], []
+    for x in subs:
+        pair = None
+        for _ in range(6):
+            pair = rng.choice([pat_reshape, pat_moveaxis])(rng, x)
+            if pair is not None and len(pair) == 2 and same_structure(pair[1].out_structure(), x):
+                break
+            pair = None
+        if pair is None:
+            return None
+        firsts.append(pair[0])
+        seconds.append(pair[1])
+    return [BlockDiagonalOperator(rebuild_container(s, firsts)), BlockDiagonalOperator(rebuild_container(s, seconds))]
+
+
 PATTERNS = [pat_inverse_pair, pat_lazy_inverse_pair, pat_rotations, pat_rot_hwp, pat_pol_hwp,
             pat_index, pat_pack, pat_reshape, pat_moveaxis, pat_block_diag_diag, pat_block_col_diag,
-            pat_block_single, pat_block_nested, pat_sandwich, pat_identity, pat_scalars]
+            pat_block_single, pat_block_nested, pat_sandwich, pat_identity, pat_scalars, pat_block_rule_identities]
 
 
 def gen_chain(rng: random.Random, s, length: int, depth: int, p_pattern: float = 0.5, force_pattern=None):
@@ -608,6 +630,7 @@ def gen_chain(rng: random.Random, s, length: int, depth: int, p_pattern: float =
 PATTERN_STRUCTURES = {
     'pat_rotations': 'stokes', 'pat_rot_hwp': 'stokes', 'pat_pol_hwp': 'stokes', 'pat_moveaxis': 'mat',
     'pat_sandwich': 'matlist', 'pat_lazy_inverse_pair': 'vec', 'pat_block_diag_diag': 'container',
+    'pat_block_rule_identities': 'matlist',
 }
 
 
